@@ -304,6 +304,86 @@ func (c *Cluster) lockstepRound(scripted []*Actor) {
 	}
 }
 
+// boundedDelayRound is a synchronous round with bounded, unequal message delays: every pending message is delivered
+// in this round or - at most once - in the next one (so within two rounds of being sent), each link stays FIFO, and the
+// messages of different links are interleaved in a PRNG order. A vote can thus reach the next leader before the proposal
+// it answers. Timers fire only when nothing at all is in flight.
+func (c *Cluster) boundedDelayRound(jr *vbase.Rng, slowProposals bool) {
+	batch := c.Pool
+	c.Pool = nil
+	type link struct{ from, to int }
+	holdLink := map[link]bool{}
+	var held, late []Pending
+	queues := map[link][]Pending{}
+	var links []link
+	for _, p := range batch {
+		if c.Actors[p.To].Crashed {
+			continue
+		}
+		l := link{p.From, p.To}
+		hold := !p.Held && jr.Chance(1, 3)
+		if slowProposals {
+			// an adversarial choice inside the same bound: the copy of every proposal that goes to the leader of the next view
+			// is the slow one, and a message that was slow is handled after the round's other messages
+			hold = false
+			if pm, ok := p.Msg.(hotstuff.ProposeMsg); ok && pm.Block != nil && !p.Held {
+				hold = c.publicLeader(pm.Block.View()+1) == c.Actors[p.To].ID
+			}
+			if p.Held && !holdLink[l] {
+				late = append(late, p)
+				continue
+			}
+		}
+		if holdLink[l] || hold {
+			// everything behind a held message on the same link waits with it
+			holdLink[l] = true
+			p.Held = true
+			held = append(held, p)
+			continue
+		}
+		if _, ok := queues[l]; !ok {
+			links = append(links, l)
+		}
+		queues[l] = append(queues[l], p)
+	}
+	for len(links) > 0 {
+		k := jr.Intn(len(links))
+		l := links[k]
+		p := queues[l][0]
+		queues[l] = queues[l][1:]
+		if len(queues[l]) == 0 {
+			links = append(links[:k], links[k+1:]...)
+		}
+		if !c.linkOpen(c.Actors[p.From], c.Actors[p.To]) {
+			held = append(held, p)
+			continue
+		}
+		c.deliver(p)
+		if c.Panic != nil {
+			return
+		}
+	}
+	for _, p := range late {
+		if !c.linkOpen(c.Actors[p.From], c.Actors[p.To]) {
+			held = append(held, p)
+			continue
+		}
+		c.deliver(p)
+		if c.Panic != nil {
+			return
+		}
+	}
+	c.Pool = append(held, c.Pool...)
+	if len(batch) == 0 {
+		for _, a := range c.Actors {
+			if a.Node != nil && !a.Crashed {
+				c.LocalTimeout(a)
+				c.FaultSteps++
+			}
+		}
+	}
+}
+
 // afterStep runs the end-of-step monitors.
 func (m *Monitors) afterStep() {
 	m.checkPrefix()
